@@ -6,6 +6,7 @@ mirror, bridge lemma proved once in Lemmas/GfpxSrcBridgePow.lean).
 -/
 import MpycV.Generated.GfpxSrc
 import MpycV.Lemmas.GfpxSrcBridgePow
+import MpycV.Lemmas.GfpxSrcBridgeBin
 import MpycV.Lemmas.GFpXIrr
 
 namespace MpycV.C24Src
@@ -30,5 +31,16 @@ theorem is_irreducible_src_correct [Fact p.Prime] {a : List ℕ} (ha : WF p a) :
     GfpxSrc.is_irreducible (p : Int) (up a) = .ok true ↔ Irreducible (toPoly p a) := by
   rw [is_irreducible_src_eq ha, ← isIrreducible_iff ha]
   simp
+
+/-! ### class BinaryPolynomial -/
+
+theorem b_is_irreducible_src_eq (a : ℕ) : GfpxSrc.b_is_irreducible (a : Int) = .ok (BinPoly.isIrreducible a) := by
+  rw [show @GfpxSrc.b_is_irreducible = @GfpxMirror.b_is_irreducible from rfl]; exact b_is_irreducible_eq a
+
+theorem b_next_irreducible_src_eq (fuel a : ℕ) : GfpxSrc.b_next_irreducible fuel (a : Int) =
+    match BinPoly.nextIrreducible fuel a with
+    | some c => .ok ((c : ℕ) : Int)
+    | none => .error TErr.fuel := by
+  rw [show @GfpxSrc.b_next_irreducible = @GfpxMirror.b_next_irreducible from rfl]; exact b_next_irreducible_eq fuel a
 
 end MpycV.C24Src
